@@ -152,8 +152,28 @@ func c03Case(r *evid.Run, tier string, idx int, g *rng.R) {
 		f := append(xsel.NodeSet{}, fwd...)
 		sh := append(xsel.NodeSet{}, fwd...)
 		rng.Shuffle(rng.New(shufSeed, "shuf"), sh)
-		return []xsel.ContextApply{xsel.WithVariable("fwd", f), xsel.WithVariable("rev", mkRev()), xsel.WithVariable("half", f[:len(f)/2]), xsel.WithVariable("shuf", sh)}
+		return []xsel.ContextApply{xsel.WithVariable("fwd", f), xsel.WithVariable("rev", mkRev()), xsel.WithVariable("half", f[:len(f)/2]), xsel.WithVariable("shuf", sh),
+			// a custom function that extends the node-set it is handed as its context the ordinary Go way
+			xsel.WithFunctionNS("urn:v", "with", func(ctx xsel.Context, args ...xsel.Result) (xsel.Result, error) {
+				cur, _ := ctx.Result().(xsel.NodeSet)
+				if len(args) > 0 {
+					if more, ok := args[0].(xsel.NodeSet); ok {
+						return append(cur, more...), nil
+					}
+				}
+				return cur, nil
+			}), xsel.WithNS("v", "urn:v")}
 	}
+	w.env.NS = map[string]string{"p": canonNS["p"], "q": canonNS["q"], "r": canonNS["r"], "xml": adoc.XMLNS, "v": "urn:v"}
+	w.env.Funcs = map[refeval.Name]refeval.Func{{Space: "urn:v", Local: "with"}: func(c refeval.Ctx, cs refeval.NodeSet, a []refeval.Value) (refeval.Value, error) {
+		out := refeval.NodeSet{c.Node}
+		if len(a) > 0 {
+			if more, ok := a[0].(refeval.NodeSet); ok {
+				out = append(out, more...)
+			}
+		}
+		return refeval.NodeSet(adoc.SortDoc(out)), nil
+	}}
 
 	// half of the reference-cursor cases query through a view that allocates a fresh cursor value
 	// each time a node is reached: identity is Pos(), as the Cursor contract says
@@ -239,6 +259,19 @@ func c03Case(r *evid.Run, tier string, idx int, g *rng.R) {
 			break
 		}
 		run("bare-name", d.Root, xast.Abs(xast.DS(), xast.Step{Axis: "attribute", Test: xast.NameT(q.Prefix, q.Local), Abbrev: true}))
+	}
+	// predicates that call a custom function which appends to its context node-set: the set being
+	// filtered is the library's business, whatever the function does with the slice it was handed
+	for i := 0; i < 4; i++ {
+		x := xast.Step{Axis: "child", Test: anyNameC03(g, elems), Abbrev: true}
+		arg := rng.Pick(g, []xast.Expr{xast.Abs(xast.S("child", xast.AnyT())), xast.Abs(xast.DS(), xast.S("child", xast.AnyT())), xast.Abs(xast.DS(), xast.Step{Axis: "attribute", Test: xast.AnyT(), Abbrev: true})})
+		call := xast.Call{Prefix: "v", Local: "with", Args: []xast.Expr{arg}}
+		filt := xast.Path{Head: xast.Paren{X: xast.Abs(xast.DS(), x)}, HPred: []xast.Expr{call}}
+		step := xast.Abs(xast.DS(), xast.Step{Axis: "child", Test: x.Test, Abbrev: true, Preds: []xast.Expr{call}})
+		for _, e := range []xast.Expr{filt, step, xast.Binary{Op: "|", L: filt, R: filt}, xast.Binary{Op: "|", L: xast.Abs(xast.DS(), x), R: step},
+			xast.Path{Head: xast.Var{Local: "rev"}, HPred: []xast.Expr{call}}} {
+			run("context-append", d.Root, e)
+		}
 	}
 	// overlap makers
 	anyName := func() xast.Test {
@@ -437,4 +470,12 @@ func c03Case(r *evid.Run, tier string, idx int, g *rng.R) {
 			law("count", fmt.Sprintf("count(A|B)=%v but count(A)=%v, count(B)=%v, common nodes=%d", uv, av, bv, common))
 		}
 	}
+}
+
+func anyNameC03(g *rng.R, elems []xast.QN) xast.Test {
+	if len(elems) > 0 && g.P(70) {
+		q := rng.Pick(g, elems)
+		return xast.NameT(q.Prefix, q.Local)
+	}
+	return xast.AnyT()
 }
